@@ -48,7 +48,10 @@ QuadsFull == <<
   \* delimiters that hold a hyphen themselves (the comment signs of HTML), and a one-character object delimiter that
   \* an object's own text may begin with: the hyphen that controls white space is the one right inside the delimiter
   << <<LT, 33, 45, 45>>, <<45, 45, GT>>, <<LT, 37>>, <<37, GT>> >>,
-  << <<LP>>, <<RB>>, <<LT, 37>>, <<37, GT>> >>
+  << <<LP>>, <<RB>>, <<LT, 37>>, <<37, GT>> >>,
+  \* ... the same signs as tag delimiters, and arrows (a hyphen at the inner edge of each delimiter)
+  << <<LT, LT>>, <<GT, GT>>, <<LT, 33, 45, 45>>, <<45, 45, GT>> >>,
+  << <<LT, 45>>, <<45, GT>>, <<LT, 37>>, <<37, GT>> >>
 >>
 NonPrefixing(q) == \A i, j \in 1..4 : i # j => ~IsPrefixOf(q[i], q[j])
 Quads == SelectSeq(QuadsFull, NonPrefixing)
